@@ -68,11 +68,17 @@ func TestC10Restart(t *testing.T) {
 		r := c.Rng
 		rl := allRoles[c.Index%4]
 		reopen := (c.Index/4)%2 == 1
-		prev := (c.Index / 8) % 3 // previous request: 0 live, 1 completed with error, 2 requester-cancelled (gs responder roles) / none
-		nblocks := []int{0, 1 + r.Intn(20), 1 + r.Intn(3)}[(c.Index/24)%3]
+		prev := (c.Index / 8) % 4 // previous request: 0 live, 1 completed with error, 2 requester-cancelled (gs responder roles) / none, 3 completed successfully (our side of the transfer is finished, the channel is not)
+		nblocks := []int{0, 1 + r.Intn(20), 1 + r.Intn(3)}[(c.Index/32)%3]
 		peers := gen.Peers(r, 2)
 		self, other := peers[0], peers[1]
 		f := newGsMgrFix(c, self, nil)
+		if !rl.Initiator && prev == 3 {
+			// a responder that requires finalization stays in Finalizing when its own side is done
+			f.val.SetOutcome(func(kind string, n int, ch datatransfer.ChannelID) (datatransfer.ValidationResult, error) {
+				return datatransfer.ValidationResult{Accepted: true, RequiresFinalization: true}, nil
+			})
+		}
 		v := gen.Voucher(r, "VT0")
 		weRequest := rl.Initiator == rl.Pull // pull initiator and push responder issue the graphsync request
 		var chid datatransfer.ChannelID
@@ -163,6 +169,16 @@ func TestC10Restart(t *testing.T) {
 			} else {
 				f.gs.NetworkErrorListener(other, doubles.Req(inID, nil), errors.New("connection lost"))
 			}
+		case 3:
+			// our own transport request ends successfully while the counterparty's completion is still
+			// outstanding (or, on a responder that requires finalization, while it is held): TransferFinished /
+			// Finalizing. The channel is neither terminated nor cleaning up, so a restart is a restart.
+			if weRequest {
+				f.gs.Complete(firstReq, nil)
+			} else {
+				f.gs.CompletedResponseListener(other, doubles.Req(inID, nil), graphsync.RequestCompletedFull)
+			}
+			c.Count("own_side_finished_before_restart", 1)
 		case 2:
 			if !weRequest {
 				f.gs.RequestorCancelledListener(other, doubles.Req(inID, nil))
